@@ -68,6 +68,9 @@ public:
     virtual const ElemTemplateElement*
     startElement(StylesheetExecutionContext&    executionContext) const;
 
+    virtual void
+    endElement(StylesheetExecutionContext&      executionContext) const;
+
     virtual const ElemTemplateElement*
     getFirstChildElemToExecute(
             StylesheetExecutionContext& executionContext) const;
@@ -82,6 +85,13 @@ public:
 #endif
 
 private:
+
+#if !defined(XALAN_RECURSIVE_STYLESHEET_EXECUTION)
+    // A fallback is only instantiated as the child of an element the
+    // processor does not implement.
+    bool
+    isInstantiated() const;
+#endif
 
     // not implemented
     ElemFallback(const ElemFallback&);
